@@ -246,5 +246,86 @@ def task_coupled_ops(ctx):
     ctx.undecided_clause("numerical benignity of the allowed couplings (Nnot == 0 exits, DIIS resets, SP2's shared while loop); MD-trajectory independence beyond one step (C08/C20 prove one step); CIS batches")
 
 
-TASKS_QUICK = ["parser_rows", "fock_rows", "pack_unpack", "coupled_ops"]
+def replay_density_rows(model):
+    """real code: a batch of two molecules with the same orbital layout and different electron counts (N2, O2), against each
+    molecule computed alone."""
+    import torch
+    from seqm.seqm_functions.constants import Constants
+    from seqm.Molecule import Molecule
+    from seqm.ElectronicStructure import Electronic_Structure
+
+    torch.set_default_dtype(torch.float64)
+    params = {"method": "AM1", "scf_eps": 1e-8, "scf_converger": [1], "sp2": [False, 1e-5], "elements": [0, 7, 8], "learned": [], "pair_outer_cutoff": 1e10, "eig": True}
+    geo = {"N2": ([7, 7], [[0.0, 0, 0], [1.10, 0, 0]]), "O2": ([8, 8], [[0.0, 0, 0], [1.21, 0, 0]])}
+
+    def run(names):
+        sp = torch.tensor([geo[k][0] for k in names])
+        xyz = torch.tensor([geo[k][1] for k in names])
+        mol = Molecule(Constants(), params, xyz, sp)
+        Electronic_Structure(params)(mol)
+        return [float(v) for v in mol.Etot], [float(v) for v in mol.dm.diagonal(dim1=1, dim2=2).sum(1)]
+
+    alone = {k: run([k]) for k in geo}
+    rows, bad = [], False
+    for batch in (["N2", "O2"], ["O2", "N2"]):
+        try:
+            Et, tr = run(batch)
+        except Exception as exc:  # noqa
+            return {"reproduced": False, "error": repr(exc)[:200]}
+        names = batch
+        for i, k in enumerate(names):
+            if abs(Et[i] - alone[k][0][0]) > 1e-5 or abs(tr[i] - alone[k][1][0]) > 1e-6:
+                bad = True
+                rows.append({"batch": names, "molecule": k, "Etot_in_batch": Et[i], "Etot_alone": alone[k][0][0], "trace_P_in_batch": tr[i], "trace_P_alone": alone[k][1][0]})
+    return {"reproduced": bad, "rows": rows[:4]}
+
+
+def task_density_rows(ctx):
+    """sym_eig_trunc (restricted, batched; LAPACK replaced by arbitrary eigenvectors): the density returned for molecule m is
+    unpack(2 C_occ C_occ^T) built from molecule m's own eigenvectors and molecule m's own number of occupied orbitals --
+    for batches with equal orbital layout and DIFFERENT electron counts, and with different layouts."""
+    fn = ctx.under_contract("seqm.seqm_functions.diag:sym_eig_trunc", stubs=["degen_symeig / pytorch_symeig (LAPACK, A2): arbitrary eigenvector matrices"])
+    cases = {"same-layout-different-nocc": ([1, 1], [1, 1], [4, 3]), "same-layout-same-nocc": ([1, 1], [1, 1], [4, 4]), "different-layouts": ([1, 0], [1, 2], [4, 1]),
+             "three-molecules": ([1, 1, 1], [1, 1, 1], [3, 4, 2])}
+    for tag, (nh, nhy, nocc) in cases.items():
+        nmol = len(nh)
+        molsize = max(a + b for a, b in zip(nh, nhy))
+        norb = [4 * a + b for a, b in zip(nh, nhy)]
+        size = max(norb)
+        V = st.symbolic((nmol, size, size), "V")
+
+        class EighStub:
+            @staticmethod
+            def apply(x0):
+                return st.symbolic((x0.shape[0], x0.shape[-1]), "eval"), V
+
+        def eigh_fn(x0):
+            return EighStub.apply(x0)
+
+        def thunk():
+            F = st.symbolic((nmol, 4 * molsize, 4 * molsize), "F")
+            return fn(F, st.tensor(nh), st.tensor(nhy), st.tensor(nocc))
+
+        ex = ctx.explore(thunk, stubs={"seqm.seqm_functions.diag:degen_symeig": EighStub, "seqm.seqm_functions.diag:pytorch_symeig": eigh_fn}, name="sym_eig_trunc[%s]" % tag)
+        for p in ex.paths:
+            if p.raised is not None:
+                ctx.fail("%s.raises@p%d" % (tag, p.path_id), repr(p.raised) + p.notes.get("traceback", "")[-600:])
+                continue
+            e, Pm, v = p.value
+            for m in range(nmol):
+                # physical orbital slots of molecule m in the unpacked 4*molsize layout
+                slots = [4 * a + k for a in range(nh[m]) for k in range(4)] + [4 * (nh[m] + b) for b in range(nhy[m])]
+                for i_, si in enumerate(slots):
+                    for j_, sj in enumerate(slots):
+                        want = 2 * sum(V.a[m, i_, k] * V.a[m, j_, k] for k in range(nocc[m]))
+                        ctx.prove_eq("%s.P[mol%d][%d,%d]=2 sum over its own %d occupied orbitals@p%d" % (tag, m, si, sj, nocc[m], p.path_id), Pm.a[m, si, sj], want, pc=p.pc,
+                                     replay=replay_density_rows, classify=lambda m_, r: "occupation-of-another-molecule")
+                others = [q for q in range(4 * molsize) if q not in slots]
+                if others:
+                    ctx.prove("%s.P[mol%d]-vanishes-on-padding-slots@p%d" % (tag, m, p.path_id),
+                              E.and_(*[E.eq(E.node_of(Pm.a[m, q, r_]), E.const(0)) for q in others for r_ in range(4 * molsize)]), pc=p.pc)
+    ctx.assume_note("A2: the eigen-solver returns some eigenvector matrix per molecule (columns ascending in energy); CHECK_DEGENERACY off (module default)")
+
+
+TASKS_QUICK = ["density_rows", "parser_rows", "fock_rows", "pack_unpack", "coupled_ops"]
 TASKS_THOROUGH = TASKS_QUICK
